@@ -63,6 +63,12 @@ RES = {
  "C10-D": ("C10", "caught by quick C10 (wgroup:sync-ack-not-durable)", "missed at first: see C04-C (sync-ack oracle)"),
  "C11-C": ("C11", "caught by quick C11 and quick C08 (open-failed)", "missed at first by C11 (C08 caught it): C11 programs were single-client; 15% of C11 cases now run the Close-versus-retried-commit race under manifest faults"),
  "C11-D": ("C11", "caught by quick C11 (scan:mismatch, get:mismatch); it partially reverts fix 9e57e47", ""),
+ "C12-C": ("C12", "caught by quick C12 (journal:strict-silent)", ""),
+ "C12-D": ("C12", "caught by quick C12 (journal:yielded-beyond-cut)", "missed at first: needs a truncation inside a chunk whose lost bytes equal the reader's stale buffer; journals are now also written with all-zero and constant-byte record contents, and for truncated streams a yielded record must lie completely within the stream"),
+ "C13-C": ("C13", "caught by quick C13 (table:get)", ""),
+ "C13-D": ("C13", "caught by quick C13 (table:format: the independent decoder no longer accepts the writer's block checksums)", ""),
+ "C16-C": ("C16", "caught by quick C16 (get:has-mismatch, get:mismatch)", ""),
+ "C16-D": ("C16", "caught by quick C16 (get:has-mismatch, get:mismatch)", "missed at first: needs a policy with a different name; the harness now has a second filter policy (exact hash set, other name, other encoding) used as Filter and in AltFilters across reopens"),
  "C14-C": ("C14", "caught by quick C14 (memdb:contains-mismatch, memdb:get-mismatch)", ""),
  "C14-D": ("C14", "caught by quick C14 (memdb:value-unstable)", "missed at first: in-place overwrite of equal-length values is only visible to a reader that still holds an earlier slice; the memdb scenario now keeps the slices handed out by Get/Find/iterators and requires their bytes to stay unchanged until Reset"),
  "C17-C": ("C17", "caught by quick C17 (cache:not-finalized)", "missed at first: needs Close/EvictAll while the hash table is being resized (>= 512 nodes); added a 'fill' operation that grows the table right before Close/EvictAll/SetCapacity(0), and the end-of-run requirement that after Close every value is finalised exactly once"),
